@@ -4,8 +4,11 @@
    f profile, sqrt, cos/sin of the toroidal angle, slerp); every theorem holds for ALL of them, all
    points, all profiles, all outside values and either sign of psi_lcfs - psi_axis. *)
 Require Import Cherab.Common.Qx.
-Require Import Cherab.Model.C12_Equilibrium Cherab.Model.C12_Gradient.
-Require Import Cherab.Proofs.C12_Equilibrium Cherab.Proofs.C12_Axisymmetry Cherab.Proofs.C12_Gradient.
+From Coq Require Import Reals.
+Require Import Cherab.Model.C12_Equilibrium Cherab.Model.C12_Gradient Cherab.Model.C12_Interp Cherab.Model.C12_Profile
+               Cherab.Model.C12_Polygon Cherab.Model.C12_Real Cherab.Model.C12_Source.
+Require Import Cherab.Proofs.C12_Equilibrium Cherab.Proofs.C12_Axisymmetry Cherab.Proofs.C12_Gradient Cherab.Proofs.C12_Interp
+               Cherab.Proofs.C12_More Cherab.Proofs.C12_Policy Cherab.Proofs.C12_Real Cherab.Proofs.C12_Source.
 Open Scope Q_scope.
 
 (* normalised flux is never negative *)
@@ -16,8 +19,9 @@ Print Assumptions C12_psin_nonneg.
 (* it is the clamped normalised flux: 0 on the axis value, 1 on the LCFS value, strictly growing with
    (psi - psi_axis) * sign(psi_lcfs - psi_axis), and unchanged when psi, psi_axis, psi_lcfs all change sign.
    Partial: the code normalises the grid and interpolates it, the model normalises the interpolated
-   psi; that raysect's cubic interpolator commutes with this affine map is not proved (it is measured
-   on every correspondence case). *)
+   psi.  C12_psin_code_order below proves the two equal for every interpolant that is a weighted sum of
+   node values with weights summing to one; what remains unproved is only that raysect's cubic scheme is
+   such a weighted sum (its weights are extracted by impulse grids on every run and checked inside Coq). *)
 Theorem C12_psin_is_normalised_flux_partial :
   forall E r z,
   ((psin_raw E r z < 0 -> psi_n E r z = 0) /\ (0 <= psin_raw E r z -> psi_n E r z = psin_raw E r z)) /\
@@ -167,6 +171,134 @@ Proof.
   apply vector3d_components.
 Qed.
 Print Assumptions C12_vector3d_rotated_partial.
+
+(* the code's order of operations (normalise the grid, interpolate, clamp) gives the model's psi_n, for every
+   interpolant that is a weighted sum of the node values with weights summing to one; never negative *)
+Theorem C12_psin_code_order :
+  forall E r z w g,
+  ~ e_psi_lcfs E == e_psi_axis E -> length w = length g -> Qsum w == 1 -> e_psi E r z == wsum w g ->
+  psin_code (e_psi_axis E) (e_psi_lcfs E) w g == psi_n E r z /\ 0 <= psin_code (e_psi_axis E) (e_psi_lcfs E) w g.
+Proof. intros. split; [apply psin_code_is_model; assumption | apply psin_code_nonneg]. Qed.
+Print Assumptions C12_psin_code_order.
+
+(* the reduced-fraction evaluators used by the correspondence compute the model's values *)
+Theorem C12_fast_evaluators_equal_model :
+  forall axis lcfs w g, wsum_red w g == wsum w g /\ Qsum_red w == Qsum w /\ psin_code_red axis lcfs w g == psin_code axis lcfs w g.
+Proof. intros. split; [apply wsum_red_ok|]. split; [apply Qsum_red_ok | apply psin_code_red_ok]. Qed.
+Print Assumptions C12_fast_evaluators_equal_model.
+
+(* a prescribed speed of exactly zero removes its part of the vector, whatever sqrt returns *)
+Theorem C12_zero_speed_components :
+  forall E (vt vp vn : Q -> Q) r z v,
+  let b := b_field E r z in let p := psi_n E r z in
+  inplane_zero b = false -> flux_to_cart E vt vp vn r z = Some v ->
+  vy v = vt p /\
+  (vp p == 0 -> veq v (V (vx (vscale_r (nor_raw b) (vn p / e_sqrt E (nor_arg b)))) (vt p)
+                         (vz (vscale_r (nor_raw b) (vn p / e_sqrt E (nor_arg b)))))) /\
+  (vn p == 0 -> veq v (V (vx (vscale_r (pol_raw b) (vp p / e_sqrt E (pol_arg b)))) (vt p)
+                         (vz (vscale_r (pol_raw b) (vp p / e_sqrt E (pol_arg b)))))) /\
+  (vp p == 0 -> vn p == 0 -> veq v (V 0 (vt p) 0)).
+Proof. intros E vt vp vn r z v b p. apply zero_speed_parts. Qed.
+Print Assumptions C12_zero_speed_components.
+
+(* unit speeds reproduce the basis: (1,0,0) the toroidal, (0,1,0) the poloidal, (0,0,1) the normal vector,
+   exactly, whatever sqrt returns and also where the in-plane field vanishes *)
+Theorem C12_unit_speeds_give_basis :
+  forall E r z,
+  (forall v, flux_to_cart E (fun _ => 1) (fun _ => 0) (fun _ => 0) r z = Some v -> veq v (toroidal_vector r z)) /\
+  (forall v ph, flux_to_cart E (fun _ => 0) (fun _ => 1) (fun _ => 0) r z = Some v -> poloidal_vector E r z = Some ph -> veq v ph) /\
+  (forall v nh, flux_to_cart E (fun _ => 0) (fun _ => 0) (fun _ => 1) r z = Some v -> surface_normal E r z = Some nh -> veq v nh).
+Proof. intros E r z. split; [apply unit_toroidal|]. split; [apply unit_poloidal | apply unit_normal]. Qed.
+Print Assumptions C12_unit_speeds_give_basis.
+
+(* the scalar and the vector blend only select (mask is 0 or 1): no lerp, and no dependence on slerp *)
+Theorem C12_blends_are_selections :
+  forall E (profile : Q -> Q) outside (vt vp vn : Q -> Q) outv s,
+  (forall r z, map2d E profile outside r z = (if inside_b E r z then profile (psi_n E r z) else outside)) /\
+  (forall r z, map_vector2d (with_slerp E s) vt vp vn outv r z = map_vector2d E vt vp vn outv r z) /\
+  (forall x y z, map_vector3d (with_slerp E s) vt vp vn outv x y z = map_vector3d E vt vp vn outv x y z).
+Proof.
+  intros. split; [intros; apply scalar_blend_is_selection|]. apply slerp_never_reached.
+Qed.
+Print Assumptions C12_blends_are_selections.
+
+(* components for a square root of relative accuracy e (in the square), at every point *)
+Theorem C12_components_with_approximate_sqrt :
+  forall E (vt vp vn : Q -> Q) r z e v ph nh,
+  let b := b_field E r z in let p := psi_n E r z in
+  let sp := e_sqrt E (pol_arg b) in let sn := e_sqrt E (nor_arg b) in
+  inplane_zero b = false -> ~ sp == 0 -> ~ sn == 0 ->
+  Qabs.Qabs (pol_arg b - sp * sp) <= e * pol_arg b -> Qabs.Qabs (nor_arg b - sn * sn) <= e * nor_arg b ->
+  flux_to_cart E vt vp vn r z = Some v -> poloidal_vector E r z = Some ph -> surface_normal E r z = Some nh ->
+  Qabs.Qabs (dot v ph - vp p) * (sp * sp) <= e * pol_arg b * Qabs.Qabs (vp p) /\
+  Qabs.Qabs (dot v nh - vn p) * (sn * sn) <= e * nor_arg b * Qabs.Qabs (vn p).
+Proof. exact components_approx. Qed.
+Print Assumptions C12_components_with_approximate_sqrt.
+
+(* ---- the full statements over the real numbers (real sqrt, cos, sin; Model/C12_Real.v mirrors the same
+   code lines): orthonormal, normal = poloidal x toroidal, poloidal along the in-plane field, b . n = 0 *)
+Theorem C12_real_basis_orthonormal :
+  forall b : rvec, (rx b <> 0 \/ rz b <> 0)%R ->
+  (rdot (rpoloidal b) (rpoloidal b) = 1 /\ rdot (rnormal b) (rnormal b) = 1 /\ rdot rtor rtor = 1 /\
+   rdot (rpoloidal b) rtor = 0 /\ rdot (rnormal b) rtor = 0 /\ rdot (rpoloidal b) (rnormal b) = 0 /\
+   rnormal b = rcross (rpoloidal b) rtor /\
+   (exists c, 0 < c /\ rpoloidal b = rscale_r (rpol_raw b) c) /\
+   rdot b (rnormal b) = 0)%R.
+Proof. exact real_basis_orthonormal. Qed.
+Print Assumptions C12_real_basis_orthonormal.
+
+(* exactly the prescribed components, in the plane and (rotated by the toroidal angle phi) in 3-D; the
+   rotation preserves dot products and carries e_r, e_phi of the plane y = 0 to those at angle phi *)
+Theorem C12_real_velocity_components :
+  forall (b : rvec) (phi vt vp vn : R), (rx b <> 0 \/ rz b <> 0)%R ->
+  (let v := rflux_to_cart b vt vp vn in
+   rdot v rtor = vt /\ rdot v (rpoloidal b) = vp /\ rdot v (rnormal b) = vn)%R /\
+  (let v := rrotate phi (rflux_to_cart b vt vp vn) in
+   rdot v (rrotate phi rtor) = vt /\ rdot v (rrotate phi (rpoloidal b)) = vp /\ rdot v (rrotate phi (rnormal b)) = vn)%R /\
+  (forall u v, rdot (rrotate phi u) (rrotate phi v) = rdot u v)%R /\
+  (rrotate phi (RV 1 0 0) = RV (cos phi) (sin phi) 0 /\ rrotate phi (RV 0 1 0) = RV (- sin phi) (cos phi) 0 /\
+   rrotate phi (RV 0 0 1) = RV 0 0 1)%R.
+Proof.
+  intros b phi vt vp vn Hb. split.
+  - destruct (real_components b Hb vt vp vn) as (A & B & C & _). cbv zeta. auto.
+  - split; [apply real_components_3d; exact Hb|]. split; [intros u v; apply real_rotation|].
+    destruct (real_rotation phi (RV 0 0 0) (RV 0 0 0)) as (_ & A & B & C). auto.
+Qed.
+Print Assumptions C12_real_velocity_components.
+
+(* profile arguments: callables are taken as they are; a 2xN array with N >= 2 strictly increasing knots is
+   accepted (whatever rows follow) and used as given -- first row knots, second row values, no transposition
+   even for N = 2 --; nothing else is accepted *)
+Theorem C12_profile_array_policy :
+  convert AFun = AcceptFun /\
+  (forall xs ys rest, (2 <= length xs)%nat -> increasing xs = true -> convert (AMat (xs :: ys :: rest)) = AcceptArray xs ys) /\
+  (forall a xs ys, convert a = AcceptArray xs ys ->
+     exists rest, a = AMat (xs :: ys :: rest) /\ (2 <= length xs)%nat /\ increasing xs = true) /\
+  (forall l, increasing l = true -> forall i, (S i < length l)%nat -> nth i l 0 < nth (S i) l 0) /\
+  (outside_vector None = vzero /\ outside_scalar None = 0).
+Proof.
+  split; [reflexivity|]. split; [exact valid_array_accepted|]. split; [exact accepted_array_is_valid|].
+  split; [exact increasing_spec|]. split; reflexivity.
+Qed.
+Print Assumptions C12_profile_array_policy.
+
+(* with the even-odd polygon test as polygon mask, inside the LCFS = inside the polygon and psi_n <= 1 *)
+Theorem C12_lcfs_mask_with_polygon :
+  forall E poly r z, e_poly E = poly_mask poly ->
+  (inside_b E r z = true <-> (pip poly r z = true /\ psi_n E r z <= 1)) /\
+  (poly_mask poly r z = 1 \/ poly_mask poly r z = 0).
+Proof. intros E poly r z H. split; [apply inside_with_polygon; exact H | apply poly_mask_01]. Qed.
+Print Assumptions C12_lcfs_mask_with_polygon.
+
+(* source tie: any record of constants / component patterns extracted from efit.pyx that passes the boolean
+   check [source_ok] (re-proved by the kernel for the current source in coq/Gen/C12/Tie.v) has component
+   patterns equal to the model's un-normalised poloidal and normal vectors on EVERY field vector *)
+Theorem C12_source_patterns_cover_all_vectors :
+  forall s, source_ok s = true ->
+  forall b, veq (ev_pattern (s_pol s) b) (pol_raw b) /\ veq (ev_pattern (s_nor s) b) (nor_raw b) /\
+            veq (ev_pattern (s_f2c_pol s) b) (pol_raw b) /\ veq (ev_pattern (s_f2c_nor s) b) (nor_raw b).
+Proof. exact source_ok_patterns. Qed.
+Print Assumptions C12_source_patterns_cover_all_vectors.
 
 (* the grids handed to the d psi interpolators (np.gradient with edge_order=2 divided by the gradient
    of the axis): exact derivative of every quadratic on a uniform axis, at every node, for every n >= 3 *)
